@@ -1266,6 +1266,9 @@ class FileStorage(
                 with self._lock:
                     self._files.empty()
                     self._file.close()
+                    # The saved index describes the unpacked file: a crash
+                    # before the new one is saved must not leave it behind.
+                    self._clear_index()
                     try:
                         try:
                             # A hard link names the unpacked file .old while
